@@ -1,5 +1,6 @@
 #![allow(clippy::type_complexity)]
 #![recursion_limit = "256"]
+#![allow(unexpected_cfgs)]
 
 pub mod preprocess;
 pub mod range;
